@@ -119,7 +119,7 @@ static void DecodeDATA_7720(Word Index) {
         MaxV = 65535;
     }
     MinV = (-((MaxV + 1) >> 1));
-    if (ChkArgCnt(1, ArgCntMax)) {
+    if (ChkArgCnt(1, ArgCntMax) && ChkArgCodeSpace(4)) {
         OK = True;
         z  = 1;
         while ((OK) & (z <= ArgCnt)) {
